@@ -1,12 +1,14 @@
 from .. import facts
 from ..common import Report, finish
-from ..rules import c06
+from ..rules import c06, subcmp
 
 RULE = ("for every select-like implementation (conditional_select / ct_select / select / ct_assign / ct_swap / "
         "conditional_assign / conditional_negate / ConstChoice::select_*): every stored field of the result "
         "depends on both operands and the choice, field f takes from A.f / B.f, and nested selects receive "
         "(A-only, B-only, the incoming choice itself); predicates over two heap-allocated operands do not "
-        "zip their limb iterators (truncation to the shorter operand) without comparing the lengths")
+        "zip their limb iterators (truncation to the shorter operand) without comparing the lengths; c06.subcmp: no "
+        "ordering routine (lt / gt / cmp / ct_* / partial_cmp / min / max) reaches its operands only through the result of "
+        "a wrapped subtraction or addition (the wrapped difference does not determine the order)")
 
 
 def run(tier, t0):
@@ -14,8 +16,10 @@ def run(tier, t0):
     for cfg in ("all", "default"):
         f = facts.load(cfg)
         c06.run(f, rep, cfg)
+        subcmp.run(f, rep, cfg)
     rep.floor("select_like_bodies", 40)
     rep.floor("boxed_binary_predicates", 5)
+    rep.floor("comparison_routines_sliced", 40)
     rep.floor("zip_call_bodies_positive_control", 3)
     return finish(rep, tier, t0,
                   explanation="label-flow summaries (field-sensitive to depth 2) of every select-like body in two "
